@@ -176,11 +176,30 @@ def gcd(ctx, w):
         if nv[pb] != urem(sa, sb):
             probs.append('b <- %s, expected a mod b' % nv[pb])
         g = s1.pc
-        if not (len(g) == 1 and isinstance(g[0], alg.Cond) and g[0].rel() == '!=' and g[0].a == sb and g[0].b == 0):
+
+        def is_ne0(c, v):
+            # v != 0 in either spelling
+            return isinstance(c, alg.Cond) and c.rel() == '!=' and ((c.a == v and c.b == 0) or (c.b == v and c.a == 0))
+
+        def is_eq0(c, v):
+            return isinstance(c, alg.Cond) and c.rel() == '==' and ((c.a == v and c.b == 0) or (c.b == v and c.a == 0))
+        top = len(g) == 1 and is_ne0(g[0], sb)
+        # the rotated form  if (b == 0) return a;  do { step } while (b != 0);  tests the NEW b at the bottom; it is the same iteration when
+        # the loop is entered under b != 0 only, the b == 0 case returns a, and the exit hands back the new a
+        bottom = len(g) == 1 and is_ne0(g[0], nv[pb])
+        if top:
+            if not tx.finals or len(tx.finals) != 1 or tx.finals[0][1] != sa:
+                probs.append('does not return a on exit')
+        elif bottom:
+            pre_ok = any(is_ne0(c, b) for c in tx.pre.pc)
+            early = [(s_, r_) for s_, r_ in getattr(tx, 'pre_rets', []) if any(is_eq0(c, b) for c in s_.pc)]
+            if not pre_ok or len(early) != 1 or early[0][1] != a:
+                probs.append('the loop tests b at the bottom but is not entered under b != 0 with b == 0 returning a')
+            fin = tx.finals or []
+            if len(fin) != 1 or fin[0][1] != nv[pa] or not any(is_eq0(c, nv[pb]) for c in fin[0][0].pc):
+                probs.append('does not return the new a when the new b is 0')
+        else:
             probs.append('loop guard %s, expected b != 0' % g)
-        # exit: returns a
-        if not tx.finals or len(tx.finals) != 1 or tx.finals[0][1] != sa:
-            probs.append('does not return a on exit')
         if probs:
             rep.bad('W5', name, '; '.join(probs), loc=loc, key='%s: euclid' % name)
         else:
@@ -340,7 +359,13 @@ def isqrt(ctx, w):
         ok_early = False
         for st_, r in tx.pre_rets:
             c = st_.pc
-            if len(c) == 1 and isinstance(c[0], alg.Cond) and c[0].rel() in ('<=', '<') and c[0].a == x and r is not None and alg.is_zero(sp.sympify(r) - x):
+            if len(c) != 1 or not isinstance(c[0], alg.Cond) or r is None or not alg.is_zero(sp.sympify(r) - x):
+                continue
+            rel, lhs, rhs = c[0].rel(), c[0].a, c[0].b
+            if rhs == x and lhs != x:
+                lhs, rhs, rel = rhs, lhs, {'<': '>', '<=': '>=', '>': '<', '>=': '<='}.get(rel, rel)     # 1 >= x is x <= 1
+            bound = dom.concrete(rhs) if lhs == x else None
+            if (rel == '<=' and bound == 1) or (rel == '<' and bound == 2):
                 ok_early = True
         if ok_early:
             rep.ok('W3', name + ':small', 'x <= 1 returns x', loc=loc)
